@@ -270,14 +270,14 @@ def specs(tier):
     out = []
     fam = [[1, 1, 1], [1, 1, 1, 1], [2, 1], [1, 2, 1], [3, 1]] + ([[1] * 5, [2, 2], [3, 2, 1], [1] * 6] if tier != "quick" else [])
     for degs in fam:
-        out.append(dict(module=Mo, scenario="Ctors", params=dict(degrees=degs)))
+        out.append(dict(module=Mo, scenario="Ctors", params=dict(degrees=degs), time_budget=200 if tier == "quick" else 900))
     out.append(dict(module=Mo, scenario="Ctors", params=dict(degrees=[1, 1, 1], box=True)))
     out.append(dict(module=Mo, scenario="Ctors", params=dict(degrees=[2, 1], box=True)))
     out.append(dict(module=Mo, scenario="Ctors", params=dict(degrees=[1, 1, 1], orient=True)))
     out.append(dict(module=Mo, scenario="Ctors", params=dict(degrees=[2, 1], orient=True)))
     if tier != "quick":
-        out.append(dict(module=Mo, scenario="Ctors", params=dict(degrees=[1, 1, 1, 1], orient=True)))
-        out.append(dict(module=Mo, scenario="Ctors", params=dict(degrees=[1, 2, 1], orient=True)))
+        out.append(dict(module=Mo, scenario="Ctors", params=dict(degrees=[1, 1, 1, 1], orient=True), time_budget=600))
+        out.append(dict(module=Mo, scenario="Ctors", params=dict(degrees=[1, 2, 1], orient=True), time_budget=600))
     for via in ("segments", "ctrlpoints", "init"):
         for where in (0, 2, 3):  # 3 = the closing junction (last end point -> first start point)
             out.append(dict(module=Mo, scenario="OpenChain", params=dict(poly="square", where=where, via=via)))
